@@ -48,7 +48,7 @@ type edit struct {
 }
 
 type callee struct {
-	obj     *types.Func
+	obj     types.Object
 	decl    *ast.FuncDecl
 	pkg     *packages.Package
 	file    *ast.File
@@ -61,6 +61,8 @@ type ctxT struct {
 	srcs    map[string][]byte
 	counter int
 	notes   []string
+	used    map[types.Object]bool // callees inlined somewhere in this round
+	nInl    map[types.Object]int  // number of call sites inlined in this round
 }
 
 // serial numbers the generated names; it keeps counting across rounds so that
@@ -86,7 +88,7 @@ func declKey(root, filename string, fd *ast.FuncDecl) string {
 }
 
 // simple reports why a function cannot be inlined, or "".
-func simple(fd *ast.FuncDecl, obj *types.Func, info *types.Info) string {
+func simple(fd *ast.FuncDecl, obj types.Object, info *types.Info) string {
 	if fd.Body == nil {
 		return "no body"
 	}
@@ -126,7 +128,7 @@ func simple(fd *ast.FuncDecl, obj *types.Func, info *types.Info) string {
 			case *ast.SelectorExpr:
 				fid = f.Sel
 			}
-			if fid != nil && info.Uses[fid] == types.Object(obj) {
+			if fid != nil && info.Uses[fid] == obj {
 				why = "recursive"
 			}
 		}
@@ -141,7 +143,7 @@ func simple(fd *ast.FuncDecl, obj *types.Func, info *types.Info) string {
 // The third result lists the candidates (by reference key) that no longer have
 // any reference in the loaded packages.
 func Normalize(pkgs []*packages.Package, root, modPath string, cur map[string][]byte) (map[string][]byte, []string, []string) {
-	c := &ctxT{srcs: map[string][]byte{}, counter: serial}
+	c := &ctxT{srcs: map[string][]byte{}, counter: serial, used: map[types.Object]bool{}, nInl: map[types.Object]int{}}
 	defer func() { serial = c.counter }()
 	c.setSources(cur)
 	var mods []*packages.Package
@@ -156,7 +158,7 @@ func Normalize(pkgs []*packages.Package, root, modPath string, cur map[string][]
 	}
 	c.fset = mods[0].Fset
 	// candidates
-	cands := map[*types.Func]*callee{}
+	cands := map[types.Object]*callee{}
 	for _, p := range mods {
 		for i, f := range p.Syntax {
 			filename := p.CompiledGoFiles[i]
@@ -188,6 +190,76 @@ func Normalize(pkgs []*packages.Package, root, modPath string, cur map[string][]
 			}
 		}
 	}
+	// local variables bound once to a function literal and only ever called
+	closureDefs := map[types.Object]ast.Stmt{}
+	for _, p := range mods {
+		for i, f := range p.Syntax {
+			filename := p.CompiledGoFiles[i]
+			if strings.HasSuffix(filename, "_test.go") || !strings.HasPrefix(filename, root) {
+				continue
+			}
+			src, err := c.source(filename)
+			if err != nil {
+				continue
+			}
+			for _, d := range f.Decls {
+				fd, ok := d.(*ast.FuncDecl)
+				if !ok || fd.Body == nil {
+					continue
+				}
+				key := declKey(root, filename, fd)
+				ast.Inspect(fd.Body, func(n ast.Node) bool {
+					as, ok := n.(*ast.AssignStmt)
+					if !ok || as.Tok != token.DEFINE || len(as.Lhs) != 1 || len(as.Rhs) != 1 {
+						return true
+					}
+					lit, isLit := as.Rhs[0].(*ast.FuncLit)
+					id, isId := as.Lhs[0].(*ast.Ident)
+					if !isLit || !isId || id.Name == "_" || reference[key+"/"+id.Name] || strings.HasPrefix(id.Name, "_inl") {
+						return true
+					}
+					obj := p.TypesInfo.Defs[id]
+					if obj == nil {
+						return true
+					}
+					// every use is the callee of a plain call; never assigned again
+					okUse := true
+					for uid, uo := range p.TypesInfo.Uses {
+						if uo != obj {
+							continue
+						}
+						isCallee := false
+						ast.Inspect(fd.Body, func(m ast.Node) bool {
+							if ce, ok := m.(*ast.CallExpr); ok && ce.Fun == ast.Expr(uid) {
+								isCallee = true
+							}
+							if gs, ok := m.(*ast.GoStmt); ok && gs.Call.Fun == ast.Expr(uid) {
+								okUse = false
+							}
+							if ds, ok := m.(*ast.DeferStmt); ok && ds.Call.Fun == ast.Expr(uid) {
+								okUse = false
+							}
+							return true
+						})
+						if !isCallee {
+							okUse = false
+						}
+					}
+					if !okUse {
+						return true
+					}
+					synth := &ast.FuncDecl{Name: id, Type: lit.Type, Body: lit.Body}
+					if why := simple(synth, obj, p.TypesInfo); why != "" {
+						c.notes = append(c.notes, fmt.Sprintf("new local function %s/%s not inlined: %s", key, id.Name, why))
+						return true
+					}
+					cands[obj] = &callee{obj, synth, p, f, src, key + "/" + id.Name}
+					closureDefs[obj] = as
+					return true
+				})
+			}
+		}
+	}
 	if len(cands) == 0 {
 		return nil, c.notes, nil
 	}
@@ -210,6 +282,26 @@ func Normalize(pkgs []*packages.Package, root, modPath string, cur map[string][]
 			if len(edits) == 0 {
 				continue
 			}
+			// a local function whose calls were inlined stays declared; keep it "used"
+			for obj, def := range closureDefs {
+				if cands[obj].file != f || !c.used[obj] {
+					continue
+				}
+				uses := 0
+				for _, uo := range p.TypesInfo.Uses {
+					if uo == obj {
+						uses++
+					}
+				}
+				if uses == c.nInl[obj] {
+					// every call was inlined: the definition goes too (a leftover literal would
+					// keep the variables it captures in memory cells)
+					nl := strings.Repeat("\n", bytes.Count(src[c.off(def.Pos()):c.off(def.End())], []byte("\n")))
+					edits = append(edits, edit{c.off(def.Pos()), c.off(def.End()), "/* " + obj.Name() + " inlined */" + nl})
+				} else {
+					edits = append(edits, edit{c.off(def.End()), c.off(def.End()), "; _ = " + obj.Name()})
+				}
+			}
 			out, ok := apply(src, edits)
 			if ok {
 				overlay[filename] = out
@@ -218,16 +310,19 @@ func Normalize(pkgs []*packages.Package, root, modPath string, cur map[string][]
 		}
 	}
 	// candidates without remaining references
-	refd := map[*types.Func]bool{}
+	refd := map[types.Object]bool{}
 	for _, p := range mods {
 		for _, obj := range p.TypesInfo.Uses {
-			if fn, ok := obj.(*types.Func); ok && cands[fn] != nil {
-				refd[fn] = true
+			if cands[obj] != nil {
+				refd[obj] = true
 			}
 		}
 	}
 	var gone []string
 	for fn, cal := range cands {
+		if _, isFunc := fn.(*types.Func); !isFunc {
+			continue
+		}
 		if !refd[fn] {
 			gone = append(gone, cal.pkg.PkgPath+":"+strings.SplitN(cal.nameKey, ":", 2)[1])
 		}
@@ -264,10 +359,25 @@ func HasUnknown(root string) bool {
 			return nil
 		}
 		for _, dcl := range f.Decls {
-			if fd, ok := dcl.(*ast.FuncDecl); ok && !fd.Name.IsExported() && fd.Name.Name != "init" && fd.Name.Name != "main" {
-				if !reference[declKey(root, path, fd)] {
-					found = true
-				}
+			fd, ok := dcl.(*ast.FuncDecl)
+			if !ok {
+				continue
+			}
+			key := declKey(root, path, fd)
+			if !fd.Name.IsExported() && fd.Name.Name != "init" && fd.Name.Name != "main" && !reference[key] {
+				found = true
+			}
+			if fd.Body != nil {
+				ast.Inspect(fd.Body, func(n ast.Node) bool {
+					if as, ok := n.(*ast.AssignStmt); ok && as.Tok == token.DEFINE && len(as.Lhs) == 1 && len(as.Rhs) == 1 {
+						if _, isLit := as.Rhs[0].(*ast.FuncLit); isLit {
+							if id, ok := as.Lhs[0].(*ast.Ident); ok && id.Name != "_" && !reference[key+"/"+id.Name] {
+								found = true
+							}
+						}
+					}
+					return !found
+				})
 			}
 		}
 		return nil
@@ -314,11 +424,14 @@ func (c *ctxT) off(p token.Pos) int { return c.fset.Position(p).Offset }
 func (c *ctxT) text(src []byte, n ast.Node) string { return string(src[c.off(n.Pos()):c.off(n.End())]) }
 
 // calleeOf resolves the function a call or reference names.
-func calleeObj(info *types.Info, fun ast.Expr) (*types.Func, ast.Expr) {
+func calleeObj(info *types.Info, fun ast.Expr) (types.Object, ast.Expr) {
 	switch f := fun.(type) {
 	case *ast.Ident:
 		if fn, ok := info.Uses[f].(*types.Func); ok {
 			return fn, nil
+		}
+		if v, ok := info.Uses[f].(*types.Var); ok && !v.IsField() {
+			return v, nil
 		}
 	case *ast.SelectorExpr:
 		if fn, ok := info.Uses[f.Sel].(*types.Func); ok {
@@ -338,7 +451,7 @@ type frame struct {
 }
 
 // fileEdits walks one file and returns the edits that inline candidate calls.
-func (c *ctxT) fileEdits(p *packages.Package, f *ast.File, filename string, src []byte, cands map[*types.Func]*callee) []edit {
+func (c *ctxT) fileEdits(p *packages.Package, f *ast.File, filename string, src []byte, cands map[types.Object]*callee) []edit {
 	var edits []edit
 	info := p.TypesInfo
 	var stack []ast.Node
@@ -359,6 +472,8 @@ func (c *ctxT) fileEdits(p *packages.Package, f *ast.File, filename string, src 
 			}
 			if e, ok := c.inlineCall(p, f, filename, src, stack, x, recv, cal, done); ok {
 				edits = append(edits, e...)
+				c.used[cal.obj] = true
+				c.nInl[cal.obj]++
 				return false
 			}
 		case *ast.Ident, *ast.SelectorExpr:
@@ -439,24 +554,52 @@ func importsOK(cal *callee, callerFile *ast.File, info *types.Info) bool {
 }
 
 // captureOK: package-level names used by the callee are not shadowed at the call site.
+var lastCapture string
+
 func captureOK(cal *callee, caller *packages.Package, at token.Pos) bool {
 	ok := true
 	scope := caller.Types.Scope().Innermost(at)
 	if scope == nil {
 		return false
 	}
+	// names after a dot (pkg.Name, x.field, x.Method) and struct-literal keys are not resolved lexically
+	sel := map[*ast.Ident]bool{}
+	ast.Inspect(cal.decl.Body, func(n ast.Node) bool {
+		switch x := n.(type) {
+		case *ast.SelectorExpr:
+			sel[x.Sel] = true
+		case *ast.KeyValueExpr:
+			if id, ok := x.Key.(*ast.Ident); ok {
+				if v, isVar := cal.pkg.TypesInfo.Uses[id].(*types.Var); isVar && v.IsField() {
+					sel[id] = true
+				}
+			}
+		}
+		return true
+	})
 	ast.Inspect(cal.decl.Body, func(n ast.Node) bool {
 		id, isId := n.(*ast.Ident)
-		if !isId {
+		if !isId || sel[id] {
 			return true
 		}
 		obj := cal.pkg.TypesInfo.Uses[id]
 		if obj == nil {
 			return true
 		}
-		if obj.Parent() == cal.pkg.Types.Scope() || obj.Parent() == types.Universe {
+		// anything the callee takes from outside itself (package level, universe, or - for a
+		// function literal - the enclosing function) must mean the same thing at the call site
+		if v, isVar := obj.(*types.Var); isVar && v.IsField() {
+			return true
+		}
+		if f, isFn := obj.(*types.Func); isFn {
+			if sig, _ := f.Type().(*types.Signature); sig != nil && sig.Recv() != nil {
+				return true
+			}
+		}
+		if obj.Pos() < cal.decl.Pos() || obj.Pos() > cal.decl.End() || obj.Parent() == types.Universe {
 			if _, found := scope.LookupParent(id.Name, at); found != obj {
 				ok = false
+				lastCapture = id.Name
 			}
 		}
 		return true
@@ -629,7 +772,7 @@ func (c *ctxT) body(cal *callee, callerFile string, recvText string, argTexts []
 func (c *ctxT) inlineCall(p *packages.Package, f *ast.File, filename string, src []byte, stack []ast.Node, call *ast.CallExpr, recv ast.Expr, cal *callee, done map[ast.Node]bool) ([]edit, bool) {
 	info := p.TypesInfo
 	if !importsOK(cal, f, info) || !captureOK(cal, p, call.Pos()) {
-		c.notes = append(c.notes, fmt.Sprintf("call of new function %s at %s not inlined: imports or names differ at the call site", cal.nameKey, c.fset.Position(call.Pos())))
+		c.notes = append(c.notes, fmt.Sprintf("call of new function %s at %s not inlined: imports or names differ at the call site (%s)", cal.nameKey, c.fset.Position(call.Pos()), lastCapture))
 		return nil, false
 	}
 	// arguments must not contain calls to other candidates (handled in a later round) — any nested call text is copied verbatim, fine
